@@ -251,7 +251,7 @@ class ProgGen(object):
 
     def program(self):
         r, o = self.rng, self.o
-        nf = r.randint(1, o["max_features"])
+        nf = r.randint(min(o.get("min_features", 1), o["max_features"]), o["max_features"])
         feats = [self.feature(i) for i in range(nf)]
         return {"features": feats, "outcomes": dict(self.outcomes), "flavour": dict(self.flavour)}
 
